@@ -679,9 +679,21 @@ class Gen:
         if ds:
             self.predict(m0, ds[0], ignore=False)
             self.predict(m0, ds[0], ignore=True)
+            self.predict(m0, ds[0], ignore=False)    # the override of the previous call must not stick
             doc = self.store(m0)
             mr = self.load(doc)
+            self.predict(mr, ds[0], ignore=True)
             self.predict(mr, ds[0], ignore=False)
+            if FIT_COST.get((fam, profile), FIT_COST.get(fam, 1.0)) <= 2.5:
+                # a re-fit on a clean baseline that is interrupted half-way: whatever the object is now, a model that
+                # was disqualified must not start predicting without the override
+                clean = self._like_base(fam, profile, base0)
+                dcl = self.make_data(clean)
+                self.emit("FIT", m=mr, fam=fam, profile=profile, d=dcl, ignore=True, reuse=True,
+                          abort={"q": r.choice([0.05, 0.3, 0.6, 0.9]), "exc": r.choice(["MemoryError", "KeyboardInterrupt"])})
+                self.cost += 2 * FIT_COST.get((fam, profile), FIT_COST.get(fam, 1.0))
+                self.predict(mr, ds[0], ignore=False)
+                self.models.pop(mr, None)
 
     def _refit_flipped(self, m0, base0, also_fresh):
         """The same HourlyModel object fitted again on a baseline of the other GHI-ness; optionally a fresh model on the
